@@ -185,7 +185,10 @@ def run(ctx):
                 groups.append(("kinds-bigclen", ["%s %s %s" % (c, k, a.hex()) for k in KINDS], None))
         # every skip distance 0 .. 100 and around 128, 160, 256 (the read-and-discard skips work in 32-byte pieces): a stored
         # member of that many bytes between two others, headers only (the whole member is skipped) and after 8 bytes were read
-        for k_ in list(range(0, 101)) + [127, 128, 129, 130, 159, 160, 161, 162, 255, 256, 257, 258]:
+        # ... and around the powers of two a larger discard buffer could have (512 .. 64 KiB) and their small multiples
+        pow2 = sorted({m * p_ + d_ for p_ in (512, 1024, 2048, 4096, 8192, 16384, 32768, 65536) for m in (1, 2, 3) for d_ in (-1, 0, 1)
+                       if m * p_ <= 25000 or m == 1})
+        for k_ in list(range(0, 101)) + [127, 128, 129, 130, 159, 160, 161, 162, 255, 256, 257, 258] + pow2:
             a = simple_member(b"a", 3, b"abc") + simple_member(b"mid", k_, bytes((7 * i_ + k_) & 0xff or 1 for i_ in range(k_))) + simple_member(b"z", 2, b"yz") + b"\0"
             groups.append(("kinds-skipsizes", ["hdrs %s %s" % (k, a.hex()) for k in KINDS], None))
             a = simple_member(b"a", 3, b"abc") + simple_member(b"mid", k_ + 8, bytes((5 * i_ + k_) & 0xff or 1 for i_ in range(k_ + 8))) + simple_member(b"z", 2, b"yz") + b"\0"
@@ -320,6 +323,33 @@ def run(ctx):
                              "sig": "tool-stdin"})
             os.unlink(ap)
         dist["tool_file_vs_stdin"] = ntool
+        # (4) known finding: with the archive on standard input and the default overwrite policy the tool reads the answer
+        #     to its "OverWrite ?" prompt from the archive stream itself: the members `lha x -` yields then differ from the
+        #     ones `lha l -` lists and `lha x FILE` (answer y) extracts.  Witness corpus/C16/stdin_prompt.txt:
+        #     member a (data "y\n"), two zero bytes (= end of archive for a plain reading), a hidden member b.
+        wp = os.path.join(common.VERIF, "corpus", PID, "stdin_prompt.txt")
+        if os.path.exists(wp):
+            W = bytes.fromhex([l for l in open(wp).read().split("\n") if l and not l.startswith("#")][0])
+            res = {}
+            for how in ("file", "dash"):
+                d = os.path.join(scratch, "sp_" + how)
+                os.makedirs(d, exist_ok=True)
+                open(os.path.join(d, "a"), "wb").write(b"old")
+                if how == "file":
+                    open(os.path.join(d, "w.lzh"), "wb").write(W)
+                    r = common.run_lha(lha, ["x", "w.lzh"], cwd=d, stdin=b"y\n")
+                else:
+                    r = common.run_lha(lha, ["x", "-"], cwd=d, stdin=W)
+                res[how] = (r[0], sorted(f for f in os.listdir(d) if f != "w.lzh"))
+                shutil.rmtree(d, ignore_errors=True)
+            lst = common.run_lha(lha, ["l", "-"], cwd=scratch, stdin=W)
+            dist["stdin_prompt_witness"] = 1
+            if res["file"][1] != res["dash"][1]:
+                viol.append({"property": PID, "kind": "members-differ:stdin-shared-with-the-overwrite-prompt", "archive_hex": W.hex(),
+                             "observed": "lha x w.lzh (answer y): exit %d, files %s" % res["file"],
+                             "observed2": "lha x - < w.lzh: exit %d, files %s; lha l - lists %d member line(s)" % (
+                                 res["dash"][0], res["dash"][1], lst[1].count(b"[generic]") + lst[1].count(b"[Unix]") + lst[1].count(b"[MS-DOS]")),
+                             "sig": "stdin-prompt"})
         cov = {"evaluations": len(lines) + 2 * ntool, "distinct_nontrivial": nontriv,
                "rule": "repository and generated archives through the four stream kinds (and every truncation of small ones); prefixes of "
                        "every length 0..64 and around multiples of 12/24 and near 256 KiB made of signature-free bytes (random, alphabet "
@@ -328,7 +358,7 @@ def run(ctx):
                        "with marker + one decoy header (decoy up to 60 bytes after the marker, and 61 bytes .. 200 KiB after it); groups must yield identical member lists (C-only oracle) and every line must "
                        "equal the model's; lha t FILE vs lha t - < FILE; members with compressed-size fields >= 2^31 (archive cut short), incl. layouts where "
                        "a skip distance wrapped to a negative number lands on a header hidden in earlier data, through the four kinds, "
-                       "reading and header-only; every skip distance 0..100 and around 128/160/256 through the four kinds; truncated members whose remaining bytes hold a complete member, through the four kinds and "
+                       "reading and header-only; every skip distance 0..100, around 128/160/256 and around 512..65536 (and their doubles / triples) through the four kinds; truncated members whose remaining bytes hold a complete member, through the four kinds and "
                        "a skip callback that refuses without moving: the archive ends at the truncated member. non-trivial = group whose reference yields a member",
                "distribution": dict(dist), "samples": [groups[0][1][0][:120], groups[-1][1][1][:160]]}
         return {"violations": viol[:12], "mismatches": mism[:10], "coverage": cov,
